@@ -161,6 +161,7 @@ class Ctx:
            Returns (mismatch_cases, violation_cases) as lists of py_obj."""
         if not cases:
             return [], []
+        t_corr = time.time()
         d = os.path.join(self.scratch, "corr_" + re.sub(r"\W", "_", name)); os.makedirs(d, exist_ok=True)
         shards = [cases[i:i + shard] for i in range(0, len(cases), shard)]
         for k, shd in enumerate(shards):
@@ -184,7 +185,7 @@ class Ctx:
         distinct = set(c for c, _ in cases) if nontrivial is None else set(c for c, o in cases if nontrivial(o))
         self.cov["distinct_nontrivial"] += len(distinct)
         self.cov["traces_validated_against_impl"] += n
-        self.cov["correspondences"][name] = dict(cases=n, distinct_nontrivial=len(distinct), mismatches=len(mism), spec_violations=len(viol), broken_shards=len(bad))
+        self.cov["correspondences"][name] = dict(cases=n, distinct_nontrivial=len(distinct), mismatches=len(mism), spec_violations=len(viol), broken_shards=len(bad), wall_s=round(time.time() - t_corr, 1))
         for c, _ in cases[:sample]:
             self.cov["samples"].append({"correspondence": name, "case": c[:600]})
         if bad:
